@@ -3,6 +3,7 @@ package rules
 
 import (
 	"sort"
+	"strings"
 
 	"otelcheck/internal/core"
 )
@@ -29,4 +30,28 @@ func Properties() []string {
 	}
 	sort.Strings(out)
 	return out
+}
+
+// Signal scoping: C01/C02/C03 are about one signal each. A construct inside
+// another signal's encoder/decoder packages is neither evidence for nor a
+// violation of the property (a defect in the metrics encoder does not break
+// the traces round trip), so obligations located there are not recorded.
+var signalDirs = map[string]string{"C01": "traces", "C02": "logs", "C03": "metrics"}
+
+func init() {
+	core.Scope = func(property, pos, fn string) bool {
+		own, ok := signalDirs[property]
+		if !ok {
+			return true
+		}
+		for _, other := range []string{"traces", "logs", "metrics"} {
+			if other == own {
+				continue
+			}
+			if strings.Contains(pos, "pkg/otel/"+other+"/") || strings.Contains(fn, "pkg/otel/"+other+"/") {
+				return false
+			}
+		}
+		return true
+	}
 }
